@@ -42,7 +42,7 @@ def value_sets(path, go, rng):
     if go == "float64":
         return [{"path": path, "vk": "float64", "bits": str(f64bits(v))} for v in (0.0, -0.0, 0.5, 1.0, 1.5, 2.5, -2.5, 10.0, 100.0, 1e300, float("inf"), float("nan"))]
     if go == "string":
-        return [{"path": path, "vk": "string", "str": s.encode().hex()} for s in ("", "a", "ab", "abc", "prefix_x", "x_suffix", "héllo", "日本語", "a1b2", "ABC", "12", "admin", "x y")] + \
+        return [{"path": path, "vk": "string", "str": s.encode().hex()} for s in ("", "a", "ab", "abc", "prefix_x", "x_suffix", "héllo", "日本語", "a1b2", "ABC", "12", "admin", "x y", "90s", "1m30s")] + \
                [{"path": path, "vk": "string", "str": "ff"}]
     if go == "bool":
         return [{"path": path, "vk": "bool", "bool": b} for b in (True, False)]
@@ -253,6 +253,11 @@ FIXED = [
     ("int", "value - (this.A + 1) > 0"), ("int", "value * (10 / this.A) == 9"), ("int64", "value / (3 / 2) > 1"),
     ("uint64", "value >= 10u"), ("uint8", "value < 200u && value != 7u"), ("uint", "value in [2u, 3u, 250u]"), ("uint16", "value + 1u > 5u"),
     ("uint32", "value == 0u || value > 100u"),
+    # shapes of the defects D24-D33 (fixed in /repo) and D34 (open)
+    ("float64", "value > 1.0 / 2.0"), ("float64", "3.0 / 2.0 * value > 1.4"), ("float64", "value - 100.0 < 2.0 / 100.0"), ("bool", "has(this.Ok)"),
+    ("string", "bool(value)"), ("string", "value.trim() == 'a'"), ("string", "value != '..'"), ("string", "value.matches('[')"), ("string", "value.size() > 0"),
+    ("[]string", "value.all(item, item != '' && item in this.Tags)"), ("[]int", "value.exists(item, item in this.Nums)"), ("string", 'value == "admin"'),
+    ("string", "value.contains('\\')"), ("string", "string(this.D) == value"), ("int", "uint(value) > 1u"), ("[]string", "value[0] == 'a'"),
     ("int", "value != 0 && 10 / value > 1"), ("int", "value == 0 || 10 % value == 1"), ("string", "value.contains('\"')"), ("string", "value == 'a\\\\b'"),
 ]
 
